@@ -957,7 +957,8 @@ func dscCase(c *mc.Ctx, item int, thorough bool) mc.Verdict {
 	case 4:
 		post = "2 } pop"
 	default:
-		post = []string{"", "3 pop", "%plain\n"}[c.Choose(3)]
+		// (a program may also end by executing `stop`: the comments read up to there count all the same)
+		post = []string{"", "3 pop", "%plain\n", "stop", "4 pop stop 5 6 7", "{stop} exec"}[c.Choose(6)]
 	}
 	// at the very end of the file the last line end may be missing
 	body := text.String()
@@ -1436,7 +1437,7 @@ func main() {
 
 			nd := len(dscPositions) * len(dscKeys) * (len(dscValues) + 2) * len(dscColons)
 			fams = append(fams, mc.Family{Name: "dsc", Items: nd, Body: dscBody(thorough), Budget: budget,
-				Rule: "item = (position of 6: first line, after a code line, after a plain comment, after a blank line, between the tokens of a procedure, in a second Execute) x key of 2 x value of 4 (or no colon, or empty) x colon/blank form of 4; choices: line end LF/CR/CRLF of the comment line (thorough: independently of the preceding line), none / one `%%+` continuation line (3 texts x 3 blank forms x 3 line ends) / two continuation lines (2 blank forms x 3 x 3 line ends), an optional second comment (4 kinds, two of them ended by a form feed with code following on the same line), following code / plain comment / end of file with or without final line end; observed in Interpreter.DSC in order; non-trivial = all"})
+				Rule: "item = (position of 6: first line, after a code line, after a plain comment, after a blank line, between the tokens of a procedure, in a second Execute) x key of 2 x value of 4 (or no colon, or empty) x colon/blank form of 4; choices: line end LF/CR/CRLF of the comment line (thorough: independently of the preceding line), none / one `%%+` continuation line (3 texts x 3 blank forms x 3 line ends) / two continuation lines (2 blank forms x 3 x 3 line ends), an optional second comment (4 kinds, two of them ended by a form feed with code following on the same line), following code / plain comment / end of file with or without final line end / a program that ends by executing `stop` (3 forms); observed in Interpreter.DSC in order; non-trivial = all"})
 
 			fams = append(fams, boundaryFamily(budget))
 			fams = append(fams, mixedLinesFamily(budget))
